@@ -116,13 +116,6 @@ def isContainer : T → Bool
     chains; the theorems need this. -/
 def chainOk (first : T) (more : List T) : Bool := !isContainer ((first :: more).getLastD first)
 
-/-- not a pipeline: no term but the last is a bare identifier (a call-ender). A pipeline that breaks
-    is a "tall" step and is set off by blank lines from the other steps of a sequence — the theorems
-    allow pipelines in field values and as the only step of a program, not among several steps. -/
-def noPipe : T → Bool
-  | .chain f more => (f :: more).dropLast.all fun t => !isIdent t
-  | _ => true
-
 /-- an optional name is in the language of the given lexical class -/
 def optOk (ok : Str → Bool) : Option Str → Prop
   | none => True
@@ -270,10 +263,8 @@ def sequenceDoc : List T → Doc
     chains `ts` (the parser makes ONE sequence of all the comma/newline-separated expressions) -/
 def programDoc (ts : List T) : Doc := .concat [sequenceDoc ts]
 
-/-- a program of the fragment: at least one step, all well-formed; several steps only without
-    pipelines among them (`noPipe`) -/
-def WFProg (ts : List T) : Prop :=
-  ts ≠ [] ∧ (∀ t ∈ ts, T.WF t) ∧ (ts.length = 1 ∨ ∀ t ∈ ts, noPipe t = true)
+/-- a program of the fragment: at least one step, all well-formed -/
+def WFProg (ts : List T) : Prop := ts ≠ [] ∧ ∀ t ∈ ts, T.WF t
 
 /-- `format_program` on the fragment: lay out at `WIDTH`, collapse blank lines, expand the (absent)
     literal placeholders. -/
